@@ -18,13 +18,14 @@ Line == TraceLines[l]
 Same(x, y) == ToJson(x) = ToJson(y)
 ObsMatches == \A f \in DOMAIN last'.exp :
                  /\ f \in DOMAIN Line.obs
-                 /\ IF f = "st" THEN \A g \in DOMAIN last'.exp.st : g \in DOMAIN Line.obs.st /\ Same(Line.obs.st[g], last'.exp.st[g])
+                 /\ IF f \in {"st", "xfixed"}
+                    THEN \A g \in DOMAIN last'.exp[f] : g \in DOMAIN Line.obs[f] /\ Same(Line.obs[f][g], last'.exp[f][g])
                     ELSE Same(Line.obs[f], last'.exp[f])
 
 TInit == Init /\ l = 1
 
 Dispatch ==
-  \/ Line.a = "Write" /\ Line.arg.item.t \in Tags /\ Write(Line.arg.item)
+  \/ Line.a = "Write" /\ Line.arg.item.t \in Tags /\ Write(Line.arg.item, Line.arg.cap)
   \/ Line.a = "Open"  /\ Open(Line.arg.k)
   \/ Line.a = "Read"  /\ Read(Line.arg.via, Line.arg.dst, Line.arg.pre) /\ Line.arg.t = last'.arg.t /\ Line.arg.n = last'.arg.n
   \/ Line.a = "OpenAll"  /\ OpenAll
